@@ -8,7 +8,9 @@ cd /repo
 if [ -n "$(git status --porcelain)" ]; then echo "repo not clean" >&2; exit 2; fi
 git apply $sd/patch.diff || { echo "patch does not apply" >&2; exit 2; }
 for p in "$@"; do
+  cp -p /verif/evidence/$p.json /tmp/evidence_keep_$p.json 2>/dev/null   # evidence files describe the unchanged tree
   out=$(/verif/check $p quick 2>&1); rc=$?
+  mv /tmp/evidence_keep_$p.json /verif/evidence/$p.json 2>/dev/null
   { echo "exit=$rc"; echo "$out" | grep "^FAILED\|^VIOLATION\|^UNDECIDED\|^property=" | cut -c1-300; } > $sd/detect_$p.txt
   echo "$id $p exit=$rc $(echo "$out" | grep -c '^VIOLATION') violation(s)"
 done
